@@ -10,6 +10,7 @@ import (
 	"github.com/pion/stun/v3"
 	"github.com/pion/stun/v3/verifharness/core"
 	"github.com/pion/stun/v3/verifharness/gen"
+	"github.com/pion/stun/v3/verifharness/sim"
 )
 
 // C15: Client.Close is final, leak-free and honours connection ownership.
@@ -25,7 +26,7 @@ func c15Options() []rigOpts {
 			for _, realClock := range []bool{false, true} {
 				for _, fb := range []bool{false, true} {
 					for rtoMode := 0; rtoMode < 3; rtoMode++ {
-						for errMode := 0; errMode < 5; errMode++ {
+						for errMode := 0; errMode < 7; errMode++ {
 							for _, defAgent := range []bool{false, true} {
 								if defAgent && (errMode == 1 || errMode == 3) {
 									continue // the agent Close error is injected through the tapping agent
@@ -47,6 +48,11 @@ func c15Options() []rigOpts {
 								case 4:
 									// what a real net.Conn answers to a second close
 									o.connCloseErr = &net.OpError{Op: "close", Net: "udp", Err: net.ErrClosed}
+								case 5:
+									// what a TLS/DTLS connection answers when its close alert hits the write deadline: a net.Error, Timeout() true
+									o.connCloseErr = sim.DressError(errInjectedConnClose, 1)
+								case 6:
+									o.connCloseErr = sim.DressError(errInjectedConnClose, 2)
 								}
 								out = append(out, o)
 							}
